@@ -22,7 +22,7 @@ ASSUMPTIONS = [
     'announced (C05 requires that), keys after it must not',
     'links are observed behaviourally (perturb each source with a fresh valid value and see which targets follow)',
 ]
-REQUIRED = {'rejected_attempts': 800, 'with_links': 500, 'link_probes': 2000, 'ref_attempts': 300, 'dynamic_attempts': 60}
+REQUIRED = {'rejected_attempts': 800, 'with_links': 500, 'link_probes': 2000, 'ref_attempts': 300, 'dynamic_attempts': 60, 'async_attempts': 40}
 
 _st = {}
 _n = [100]
@@ -103,9 +103,86 @@ def dynamic_case(idx, rng, P, rep):
         param.Dynamic.time_fn(0)
 
 
+def async_case(idx, rng, P, rep):
+    """A rejected assignment while an asynchronous reference is still being evaluated must not disturb it: the pending
+    result (and the later items of an async generator) still arrive."""
+    import asyncio
+    param = _st['param']
+
+    class ATgt(param.Parameterized):
+        x = param.Number(default=1.0, bounds=(0, 10), allow_refs=True)
+        s = param.String(default='a', regex='^a', allow_refs=True)
+
+    ATgt.__name__ = f'ATgt{idx}'
+    loop = _st.setdefault('loop', asyncio.new_event_loop())
+    asyncio.set_event_loop(loop)
+    kind = rng.choice(['coroutine', 'asyncgen'])
+    route = rng.choice(['inst', 'update1'])
+    bad = rng.choice([99, 'str', None])
+    turns_before = rng.randint(0, 3)
+    desc = dict(kind='rejected-while-async-pending/' + kind, route=route, value=repr(bad), loop_turns_before_rejection=turns_before)
+
+    async def scenario():
+        t = ATgt()
+        gates = [loop.create_future(), loop.create_future()]
+        seen = []
+        t.param.watch(lambda e: seen.append(e.new), 'x')
+        if kind == 'coroutine':
+            async def ref():
+                return await gates[0]
+        else:
+            async def ref():
+                yield await gates[0]
+                yield await gates[1]
+        t.x = ref
+        for _ in range(turns_before):
+            await asyncio.sleep(0)
+        raised = None
+        try:
+            if route == 'inst':
+                t.x = bad
+            else:
+                t.param.update(x=bad)
+        except (ValueError, TypeError) as e:
+            raised = e
+        if raised is None:
+            return 'accepted', seen, t.x
+        for _ in range(3):
+            await asyncio.sleep(0)
+        gates[0].set_result(4.5) if not gates[0].done() else None
+        for _ in range(6):
+            await asyncio.sleep(0)
+        if kind == 'asyncgen':
+            gates[1].set_result(6.5) if not gates[1].done() else None
+            for _ in range(6):
+                await asyncio.sleep(0)
+        return 'rejected', seen, t.x
+
+    outcome, seen, final = loop.run_until_complete(scenario())
+    pending = [tk for tk in asyncio.all_tasks(loop) if not tk.done()]
+    for tk in pending:
+        tk.cancel()
+    if pending:
+        loop.run_until_complete(asyncio.gather(*pending, return_exceptions=True))
+    if outcome == 'accepted':
+        rep.count('attempt_not_rejected')
+        rep.case(('async', kind, route, 'accepted'), False)
+        return
+    rep.count('rejected_attempts')
+    rep.count('async_attempts')
+    expect = [4.5] if kind == 'coroutine' else [4.5, 6.5]
+    if seen != expect or final != expect[-1]:
+        rep.violation(f'C02/rejected-while-async-pending/{route}/pending-evaluation-disturbed',
+                      f'{kind} reference pending, rejected {route} assignment of {bad!r} after {turns_before} loop turns: the watcher then saw {seen} '
+                      f'and x ended as {final!r}; expected {expect}', case=desc)
+    rep.case(('async', kind, route, turns_before), True)
+
+
 def run_case(idx, rng, P, rep):
     if rng.random() < 0.12:
         return dynamic_case(idx, rng, P, rep)
+    if rng.random() < 0.08:
+        return async_case(idx, rng, P, rep)
     param = _st['param']
     bind = param.bind
 
